@@ -316,7 +316,7 @@ def main():
     # ---------------------------------------------------------------- 4. end to end at coordinate level on a toy curve
     # (coordinate-level code inside the fixed-base routines - an inline normalisation, a shortcut on Z, a hand-rolled copy - has
     #  no image in the abstract group; here the whole routine, point formulas and lookups included, runs on F_43 coordinates)
-    def t_coord(fn, sym_pos, seed, prior, tail=1):
+    def t_coord(fn, sym_pos, seed, prior, tail=1, zero_frac=0.3):
         from . import toy as T, toycoord as TC
         import random
         toy = T.get_toy(43, 31)
@@ -331,7 +331,7 @@ def main():
                 # an affine table cannot hold the identity: entries (j+1)*256^i*G' with 31 | j+1 do not exist on the toy curve (on
                 # secp256k1 no entry is the identity: (j+1)*256^i < n), so byte values 31, 62, ... are outside the bound
                 fix = (lambda j, v: v + 1 if (v and v % toy.n == 0) else v) if width == 8 else None
-                limbs, wins = TC.windowed_scalar('s', sym_pos, width, rng, tail=tail, fix=fix)
+                limbs, wins = TC.windowed_scalar('s', sym_pos, width, rng, tail=tail, fix=fix, zero_frac=zero_frac)
                 if width == 8:
                     for w in wins:
                         if isinstance(w, tm.T):
@@ -353,7 +353,7 @@ def main():
                 ctx.check(valid, 'bv:result-is-a-valid-projective-point')
                 ctx.check(tm.eq(k, want, T.W), 'bv:result=s*G')
                 return 'ok'
-            lbl = 'coord/F_43/%s[sym windows %s, seed %d, receiver %s]' % (fn, ','.join(map(str, sorted(sym_pos))), seed, prior)
+            lbl = 'coord/F_43/%s[sym windows %s, %s, receiver %s]' % (fn, ','.join(map(str, sorted(sym_pos))), 'others zero' if zero_frac >= 1 else 'seed %d' % seed, prior)
             paths = sub.explore(lbl, h, mode='bv', timeout=600, max_paths=400)
             sub.add(lbl + '/witness', [], any(p.outcome == 'ok' for p in paths))
         return task
@@ -363,12 +363,19 @@ def main():
             grids += [((a, b), 10 + a, 'any') for a in range(0, 64, 9) for b in (a + 1, 63 - a) if b != a and 0 <= b < 64]
         for sp, seed, prior in grids:
             tasks.append(('coord', t_coord('ScalarBaseMult', set(sp), seed + chk.seed, prior)))
+        # short scalars, s = 0 included: one symbolic window, every other window zero
+        for fn, sp in (('ScalarBaseMult', (0,)), ('ScalarBaseMult', (63,)), ('scalarBaseMultVartime', (0,)), ('scalarBaseMultVartime', (31,))):
+            for prior in ('fresh', 'any'):
+                tasks.append(('coord', t_coord(fn, set(sp), 0, prior, tail=0, zero_frac=1.0)))
         vgrids = [((0,), 1, 'fresh'), ((31,), 2, 'any'), ((17,), 3, 'any')]
         if chk.thorough:
             vgrids += [((3, 17), 3, 'any')] + [((a, 31 - a), 20 + a, 'any') for a in range(0, 16, 3)]
         for sp, seed, prior in vgrids:
             tasks.append(('coord', t_coord('scalarBaseMultVartime', set(sp), seed + chk.seed, prior)))
         chk.summaries.update(TC_SUMMARY())
+        # a tree whose fixed-base routines work on coordinates directly has no image in the abstract group: then (and only then) the
+        # claim for them is the coordinate-level one
+        chk.breach_fallback = {'basemult': 'the coordinate-level tasks coord/F_43/* (toy curve, 1..3 symbolic windows per instance)'}
         chk.bounds.append('coordinate level, toy curve y^2=x^3+7 over F_43 (order 31): ScalarBaseMult / scalarBaseMultVartime executed end to end (real point '
                           'formulas, lookups, table casts) on 256-bit window strings with 1..3 symbolic windows (every value of each) at the listed positions and '
                           'the other windows concrete (seeded, ~30% zero); receiver fresh (zero value) or any valid point in any representation; '
@@ -387,4 +394,5 @@ def TC_SUMMARY():
 
 
 if __name__ == '__main__':
-    main()
+    from .common import run_main
+    run_main(main)
